@@ -27,7 +27,8 @@ Failed(e) ==
             /\ (e.B[i] # 0 /\ ~MayVanish(e, i, e.B, e.A)) => (SurvivesIn(e, e.B2, i, e.B[i]) /\ (completed => SurvivesIn(e, e.A2, i, e.B[i])))
       THEN {} ELSE {"C02"})
   \cup (IF completed /\ ~(e.A2 = e.B2 /\ e.E2 = e.A2 /\ e.tr2) THEN {"C06"} ELSE {})
-  \cup (IF e.tr /\ e.A = e.B /\ e.E = e.A /\ ~(e.A2 = e.A /\ e.B2 = e.B /\ e.E2 = e.E /\ e.nplan = 0 /\ e.exit = 0) THEN {"C06"} ELSE {})
+  \* a leftover staging name (hidden from the projection) is an ordinary file to copia: not a fixpoint then
+  \cup (IF e.tr /\ ~e.stg /\ e.A = e.B /\ e.E = e.A /\ ~(e.A2 = e.A /\ e.B2 = e.B /\ e.E2 = e.E /\ e.nplan = 0 /\ e.exit = 0) THEN {"C06"} ELSE {})
   \cup (IF ~e.tr /\ ~(\A i \in 1..N(e) : (e.A[i] # 0 => e.A2[i] # 0) /\ (e.B[i] # 0 => e.B2[i] # 0)) THEN {"C07"} ELSE {})
   \cup (IF ~e.tr /\ completed /\ ~(\A i \in 1..N(e) : (e.A[i] # 0 => SurvivesIn(e, e.A2, i, e.A[i]) /\ SurvivesIn(e, e.B2, i, e.A[i]))
                                                       /\ (e.B[i] # 0 => SurvivesIn(e, e.A2, i, e.B[i]) /\ SurvivesIn(e, e.B2, i, e.B[i]))) THEN {"C07"} ELSE {})
